@@ -1,4 +1,5 @@
 import Drv.Common
+import Drv.PragParse
 import VrpModel.C12
 open Lean Drv C12
 
@@ -168,6 +169,21 @@ def handle (j : Json) : R (List (String × Json)) := do
   let mut bad : List (String × Json) := []
   let mut mutValid : List Json := []
   let mut acceptsValid := !(baseSupported && baseValid) || implBase.isEmpty
+  -- open deviations D9 / D11: a valid solution of one of the two excluded shapes which the real checker rejects is
+  -- reported (and matched against the known findings), not skipped
+  match Spec.deviationOf P S with
+  | some dv =>
+    -- on these two shapes the load formula of `C12.Spec` follows the checker's stop-level intervals, so validity is judged
+    -- by the solver-level specifications of C01-C03 instead (activity-level reload intervals; `VrpModel/Spec.lean`)
+    let pragValid := match Drv.PragParse.parseProblem spJ, Drv.PragParse.parseSolution solJ with
+      | .ok p, .ok s => (_root_.Spec.feasible p s).isEmpty && (_root_.Spec.partition p s).isEmpty &&
+                        -- witnesses are stored without costs: the cost line of the replay is not a matter of the checker's load rule
+                        ((_root_.Spec.replay p s).filter (fun m => (m.splitOn ": cost ").length == 1)).isEmpty
+      | _, _ => false
+    if (baseValid || pragValid) && !implBase.isEmpty then
+      acceptsValid := false
+      bad := bad ++ [(s!"accepts_valid:open-deviation-{dv}:base", Json.bool false)]
+  | none => pure ()
   let mut rejectsBreach := true
   let mut idx := 0
   for m in muts do
@@ -183,6 +199,12 @@ def handle (j : Json) : R (List (String × Json)) := do
     if sup && v && !implM.isEmpty then
       acceptsValid := false
       bad := bad ++ [(s!"accepts_valid:{name}", Json.bool false)]
+    match Spec.deviationOf P2 S2 with
+    | some dv =>
+      if v && !implM.isEmpty then
+        acceptsValid := false
+        bad := bad ++ [(s!"accepts_valid:open-deviation-{dv}:{name}", Json.bool false)]
+    | none => pure ()
     if baseSupported && baseValid && !v && implM.isEmpty then
       rejectsBreach := false
       bad := bad ++ [(s!"rejects_breach:{name}", Json.bool false)]
@@ -191,6 +213,12 @@ def handle (j : Json) : R (List (String × Json)) := do
   return [("model", model),
           ("oracle", Json.mkObj ([("accepts_valid", Json.bool acceptsValid), ("rejects_breach", Json.bool rejectsBreach)] ++ bad)),
           ("spec", Json.mkObj [("supported", Json.bool baseSupported), ("valid", Json.bool baseValid),
+                               ("core_supported", Json.bool (Spec.supportedCore P S)),
+                               ("deviation", match Spec.deviationOf P S with | some d => Json.str d | none => Json.null),
+                               ("prag", match Drv.PragParse.parseProblem spJ, Drv.PragParse.parseSolution solJ with
+                                  | .ok p, .ok s => Json.arr ((_root_.Spec.feasible p s ++ _root_.Spec.partition p s ++ _root_.Spec.replay p s).map Json.str).toArray
+                                  | .error e, _ => Json.str ("problem: " ++ e)
+                                  | _, .error e => Json.str ("solution: " ++ e)),
                                ("parts", partsJson P S), ("muts", Json.arr mutValid.toArray)])]
 
 end Drv.C12
